@@ -25,8 +25,10 @@ import (
 	"context"
 	"encoding/json"
 	"fmt"
+	"os"
 	"sort"
 	"strings"
+	"sync"
 	"testing"
 	"time"
 
@@ -381,6 +383,8 @@ type c06Variant struct {
 	Alias   bool   // login: carries an alias (entity is created)
 	Create  string // create: child | orphan | root-nonexpiring | batch | role | ghost-policy | periodic | uses
 	Refused bool   // the fault-free request is expected to end in an error
+	Cancel  bool   // with CtxDead: the request's context is really cancelled at the fault (every later operation bound to it fails too)
+	CtxDead bool   // secret: mount whose revocation is a context-bound call; the request's context ends at the fault
 	Quick   bool   // part of the quick tier
 }
 
@@ -438,6 +442,19 @@ func c06Variants() []c06Variant {
 			}
 		}
 	}
+	// the storage fault is the request's own context ending (client gone / deadline), on a mount whose
+	// revocation is a context-bound call
+	for _, caller := range []string{"service", "batch-child"} {
+		for _, ns := range []string{"", "ns1/"} {
+			for _, wrap := range []bool{false, true} {
+				add(c06Variant{Name: fmt.Sprintf("secret/%s/ctxdead/ns=%s/wrap=%v", caller, ns, wrap), Kind: "secret", Caller: caller, NS: ns, Wrap: wrap, CtxDead: true,
+					Quick: (caller == "service" && (ns == "") != wrap) || (caller == "batch-child" && ns == "" && !wrap)})
+			}
+		}
+	}
+	for _, wrap := range []bool{false, true} {
+		add(c06Variant{Name: fmt.Sprintf("secret/service/ctxcancel/ns=/wrap=%v", wrap), Kind: "secret", Caller: "service", Wrap: wrap, CtxDead: true, Cancel: true, Quick: true})
+	}
 	add(c06Variant{Name: "secret/service/dotdot/wrap", Kind: "secret", Caller: "service", Wrap: true, DotDot: true, Refused: true, Quick: true})
 	// logins through the recording auth backend
 	for _, tt := range []string{"service", "batch"} {
@@ -459,14 +476,14 @@ func c06Variants() []c06Variant {
 	add(c06Variant{Name: "login/service/dotdot", Kind: "login", Caller: "none", TokType: "service", DotDot: true, Refused: true, Quick: true})
 	add(c06Variant{Name: "login/service/dotdot/ns1/alias", Kind: "login", Caller: "none", TokType: "service", NS: "ns1/", Alias: true, DotDot: true, Refused: true, Quick: true})
 	// child tokens
-	for _, cr := range []string{"child", "orphan", "root-nonexpiring", "batch", "role", "ghost-policy", "periodic", "uses"} {
+	for _, cr := range []string{"child", "orphan", "root-nonexpiring", "root-expiring", "batch", "role", "ghost-policy", "periodic", "uses"} {
 		for _, ns := range []string{"", "ns1/"} {
 			for _, wrap := range []bool{false, true} {
 				v := c06Variant{Kind: "create", Create: cr, NS: ns, Wrap: wrap, Caller: "service", TokType: "service"}
 				if cr == "batch" {
 					v.TokType = "batch"
 				}
-				if cr == "root-nonexpiring" || cr == "ghost-policy" {
+				if cr == "root-nonexpiring" || cr == "root-expiring" || cr == "ghost-policy" {
 					if ns != "" {
 						continue
 					}
@@ -483,8 +500,66 @@ func c06Variants() []c06Variant {
 
 // ------------------------------------------------------------------ boot / fixtures
 
+// c06CtxMount is the recording backend behind a thin wrapper that treats revoke / renew as a
+// context-bound remote call (like a database engine's DROP ROLE through ExecContext): the call
+// fails when its context is done, or belongs to a request whose context the harness declared
+// ended. The harness identifies a request's context by the in-flight request id value, which
+// the core copies into the context it derives for the request.
+type c06CtxMount struct {
+	mu     sync.Mutex
+	v      *vCore
+	dead   map[string]bool
+	reqCtx context.Context // context of the last request that reached the mount
+}
+
+var c06CtxMounts = map[*vCore]*c06CtxMount{}
+
+func (h *c06CtxMount) end(reqID string) {
+	h.mu.Lock()
+	h.dead[reqID] = true
+	h.mu.Unlock()
+}
+
+type c06CtxBackend struct {
+	logical.Backend
+	h *c06CtxMount
+}
+
+func (b *c06CtxBackend) HandleRequest(ctx context.Context, req *logical.Request) (*logical.Response, error) {
+	if req.Operation == logical.RevokeOperation || req.Operation == logical.RenewOperation {
+		if err := ctx.Err(); err != nil {
+			return nil, err
+		}
+		if id, ok := ctx.Value(logical.CtxKeyInFlightRequestID{}).(string); ok {
+			b.h.mu.Lock()
+			dead := b.h.dead[id]
+			b.h.mu.Unlock()
+			if dead {
+				return nil, context.Canceled
+			}
+		}
+	}
+	if strings.HasPrefix(req.Path, "lease/") && (req.Operation == logical.ReadOperation || req.Operation == logical.UpdateOperation) {
+		b.h.mu.Lock()
+		b.h.reqCtx = ctx
+		b.h.mu.Unlock()
+	}
+	return b.Backend.HandleRequest(ctx, req)
+}
+
+func (h *c06CtxMount) factory(ctx context.Context, conf *logical.BackendConfig) (logical.Backend, error) {
+	inner, err := h.v.Rec.Factory(logical.TypeLogical)(ctx, conf)
+	if err != nil {
+		return nil, err
+	}
+	return &c06CtxBackend{Backend: inner, h: h}, nil
+}
+
 func c06Boot(t *testing.T, transactional, cache bool) *vCore {
-	v := vBoot(t, vOpts{Transactional: transactional, Cache: cache})
+	h := &c06CtxMount{dead: map[string]bool{}}
+	v := vBoot(t, vOpts{Transactional: transactional, Cache: cache, Logical: map[string]logical.Factory{"c06ctx": h.factory}})
+	h.v = v
+	c06CtxMounts[v] = h
 	for _, ns := range []string{"", "ns1/", "ns1/ns2/"} {
 		switch ns {
 		case "ns1/":
@@ -494,6 +569,7 @@ func c06Boot(t *testing.T, transactional, cache bool) *vCore {
 		}
 		v.Policy("c06", c06Policy, ns)
 		v.Mount("c06rec", "verifrec", ns, nil)
+		v.Mount("c06ctx", "c06ctx", ns, nil)
 		v.EnableAuth("c06auth", "verifrec", ns)
 		v.MustDo(vReq{Op: logical.UpdateOperation, Path: "auth/token/roles/c06role", Token: v.Root, NS: ns, Data: map[string]any{"allowed_policies": "c06,default", "renewable": true}})
 	}
@@ -538,6 +614,8 @@ type c06Case struct {
 
 	s0      *c06State
 	recMark int
+	reqID   string // in-flight request id carried by the request's context
+	cancel  context.CancelFunc
 	ops     []kit.Event
 	bad     int
 }
@@ -545,6 +623,7 @@ type c06Case struct {
 func c06NewCase(v *vCore, vr c06Variant, tx bool, rng *kit.Rand) *c06Case {
 	c := &c06Case{v: v, vr: vr, tx: tx}
 	c.name = "n" + rng.Canary()[4:12]
+	c.reqID = "c06-" + rng.Canary()[4:16]
 	if vr.DotDot {
 		c.name = "a.." + c.name
 	}
@@ -626,6 +705,9 @@ func (c *c06Case) request(tag string) (*logical.Response, error) {
 	switch vr.Kind {
 	case "secret":
 		rq.Path = "c06rec/lease/" + c.name
+		if vr.CtxDead {
+			rq.Path = "c06ctx/lease/" + c.name
+		}
 		rq.Op = logical.ReadOperation
 		if vr.Update {
 			rq.Op = logical.UpdateOperation
@@ -655,6 +737,8 @@ func (c *c06Case) request(tag string) (*logical.Response, error) {
 			rq.Path = "auth/token/create/c06role"
 		case "ghost-policy":
 			rq.Data["policies"] = []string{"c06", "ghost-" + c.name}
+		case "root-expiring":
+			rq.Data = map[string]any{"policies": []string{"root"}, "ttl": c.ttl}
 		case "periodic":
 			rq.Data = map[string]any{"policies": []string{"c06"}, "period": c.ttl}
 		case "uses":
@@ -662,7 +746,38 @@ func (c *c06Case) request(tag string) (*logical.Response, error) {
 			rq.Data["explicit_max_ttl"] = "90m"
 		}
 	}
-	return c.v.Do(rq)
+	if c.vr.Cancel {
+		ctx, cancel := context.WithCancel(context.Background())
+		c.cancel = cancel
+		defer cancel()
+		return c06DoCtx(ctx, c.v, rq, c.reqID)
+	}
+	return c06Do(c.v, rq, c.reqID)
+}
+
+// c06Do is vCore.Do with an in-flight request id in the request's context (the http layer does
+// the same); the core copies it into the context it derives for the request.
+func c06Do(v *vCore, r vReq, reqID string) (*logical.Response, error) {
+	return c06DoCtx(context.Background(), v, r, reqID)
+}
+
+func c06DoCtx(base context.Context, v *vCore, r vReq, reqID string) (*logical.Response, error) {
+	ctx := namespace.RootContext(base)
+	if r.NS != "" {
+		ctx = namespace.ContextWithNamespaceHeader(base, r.NS)
+	}
+	if reqID != "" {
+		ctx = context.WithValue(ctx, logical.CtxKeyInFlightRequestID{}, reqID)
+	}
+	req := &logical.Request{Operation: r.Op, Path: r.Path, ClientToken: r.Token, Data: r.Data, Connection: &logical.Connection{RemoteAddr: "127.0.0.1"}}
+	if r.WrapTTL > 0 {
+		req.WrapInfo = &logical.RequestWrapInfo{TTL: r.WrapTTL}
+	}
+	if r.Tag != "" && v.Probe != nil {
+		v.Probe.Tag(r.Tag)
+		defer v.Probe.Untag()
+	}
+	return v.Core.HandleRequest(ctx, req)
 }
 
 // ------------------------------------------------------------------ what the client holds
@@ -866,7 +981,14 @@ func c06Judge(r *kit.Result, c *c06Case, caseID string, resp *logical.Response, 
 			// global check below catches it
 			r.Count("secret_rolled_back", 1)
 		case rev && len(ls) > 0:
-			viol("C06-partial-lease-after-rollback", fmt.Sprintf("secret %s was revoked at the backend but its lease record remains (%s), index entries %v", s, c06KeyClass(ls[0].Key), idx))
+			class := "C06-partial-lease-after-rollback"
+			if vr.Cancel && fault != "none" {
+				// narrow signature: the request's context was really cancelled at the fault; Register's deferred
+				// rollback revokes at the backend with a live context but deletes the lease record / index entry
+				// with the request's (dead) one
+				class = c06ClassX2
+			}
+			viol(class, fmt.Sprintf("secret %s was revoked at the backend but its lease record remains (%s), index entries %v", s, c06KeyClass(ls[0].Key), idx))
 		case !rev && len(ls) == 0:
 			viol("C06-secret-without-lease", fmt.Sprintf("secret %s was issued by the backend, is not revoked there, and no lease record exists for it", s))
 		case !rev && len(ls) > 1:
@@ -1113,6 +1235,8 @@ func c06Hash(x string) uint64 {
 	return h
 }
 
+const c06ClassX2 = "C06-X2-rollback-storage-cleanup-bound-to-cancelled-request-context"
+
 const c06ClassX1 = "C06-X1-cross-namespace-lease-survives-token-revocation"
 
 // c06Unclassified counts violations other than the narrowly classified cross-namespace finding
@@ -1125,6 +1249,11 @@ func c06Pick(vars []c06Variant) []c06Variant {
 	shard, shards := kit.Shard()
 	var out []c06Variant
 	for _, vr := range vars {
+		if vr.Cancel && os.Getenv("VERIF_C06_CTXCANCEL") == "" {
+			// Really cancelling the request's context makes every later operation bound to it fail: more
+			// than the single-fault model of this property (plan.json). Off by default, see c06ClassX2.
+			continue
+		}
 		if kit.Tier() == "quick" && !vr.Quick {
 			continue
 		}
@@ -1196,6 +1325,7 @@ func c06FaultVariant(t *testing.T, v *vCore, r *kit.Result, rng *kit.Rand, vr c0
 			r.Inconc("%s: fixture failed: %v", caseID, err)
 			return false, faulted, vd, false
 		}
+		cancelLost := false
 		if failAt > 0 {
 			cnt := 0
 			v.Probe.FailNth(func(e kit.Event) bool {
@@ -1205,6 +1335,24 @@ func c06FaultVariant(t *testing.T, v *vCore, r *kit.Result, rng *kit.Rand, vr c0
 				cnt++
 				if cnt == failAt {
 					faulted = e
+					if vr.CtxDead {
+						// this storage operation fails because the request's context ended
+						c06CtxMounts[v].end(c.reqID)
+						if vr.Cancel && c.cancel != nil {
+							c.cancel()
+							h := c06CtxMounts[v]
+							h.mu.Lock()
+							rc := h.reqCtx
+							h.mu.Unlock()
+							if rc != nil && rc.Value(logical.CtxKeyInFlightRequestID{}) == c.reqID {
+								select { // the core propagates the cancellation asynchronously: wait until it arrived
+								case <-rc.Done():
+								case <-time.After(10 * time.Second):
+									cancelLost = true
+								}
+							}
+						}
+					}
 				}
 				return true
 			}, failAt)
@@ -1212,6 +1360,9 @@ func c06FaultVariant(t *testing.T, v *vCore, r *kit.Result, rng *kit.Rand, vr c0
 		v.Probe.StartLog(false)
 		resp, err := c.request(c06Tag)
 		fired = v.Probe.ClearFaults() > 0
+		if cancelLost {
+			r.Inconc("%s: the cancellation of the request context did not reach the request within the wait bound", caseID)
+		}
 		for _, e := range v.Probe.StopLog() {
 			if e.Tag == c06Tag {
 				c.ops = append(c.ops, e)
@@ -1342,6 +1493,9 @@ func TestVerif_C06_Crash(t *testing.T) {
 		for vi, vr := range vars {
 			if kit.Tier() == "quick" && (vi+ti)%2 != 0 && kit.OnlyCase() == "" {
 				continue // quick: each variant on one of the two store kinds
+			}
+			if vr.CtxDead {
+				continue // same write sequence as the plain variants
 			}
 			if vr.Caller == "lastuse" {
 				// the registration part equals the "service" variants; the rest of its write sequence is the
